@@ -94,6 +94,8 @@ pub struct View {
     pub infos: Vec<Option<ConnInfo>>,
     pub life: Vec<Life>,
     pub avail: Vec<usize>,
+    /// lines in flight per connection (not yet readable by the server)
+    pub held: Vec<Vec<String>>,
     pub now: u64,
     pub depth: usize,
     /// the action history that led here (filled for state oracles)
@@ -109,7 +111,8 @@ impl View {
             snap,
             infos,
             life: w.conns.iter().map(|c| c.life.clone()).collect(),
-            avail: w.conns.iter().map(|c| c.avail).collect(),
+            avail: w.conns.iter().map(|c| c.avail + c.held.len()).collect(),
+            held: w.conns.iter().map(|c| c.held.iter().map(|b| String::from_utf8_lossy(b).trim_end().to_string()).collect()).collect(),
             now: w.now,
             depth,
             hist: vec![],
@@ -221,8 +224,9 @@ pub fn state_key(scn: &dyn Scenario, w: &mut World) -> u128 {
     let snap = masked(&w.snapshot());
     let life: Vec<String> = w.conns.iter().map(|c| format!("{:?}", c.life)).collect();
     let avail: Vec<usize> = w.conns.iter().map(|c| c.avail).collect();
+    let held: Vec<Vec<Vec<u8>>> = w.conns.iter().map(|c| c.held.iter().cloned().collect()).collect();
     let closed: Vec<bool> = w.conns.iter().map(|c| c.client_closed).collect();
-    hash128(&(snap, infos, life, avail, closed, scn.key_extra(w)))
+    hash128(&(snap, infos, life, avail, held, closed, scn.key_extra(w)))
 }
 
 pub fn apply(w: &mut World, a: &Act) -> Result<(), MachineryError> {
@@ -239,7 +243,7 @@ pub fn apply(w: &mut World, a: &Act) -> Result<(), MachineryError> {
         }
         Act::Tick => w.tick(),
         Act::Hold(i, l) => {
-            w.write_line(*i, l);
+            w.hold_line(*i, l);
             Ok(())
         }
         Act::Release(i) => {
@@ -290,6 +294,7 @@ pub fn observe(w: &mut World, a: &Act, depth: usize) -> Result<(View, StepObs, V
         pre_infos: pre.infos.clone(),
         post_infos: post.infos.clone(),
         pre_life: pre.life.clone(),
+        pre_held: pre.held.clone(),
         post_life: post.life.clone(),
         lines,
     };
